@@ -21,62 +21,68 @@ Definition benign (r : sres) : Prop :=
 Definition fails (r : sres) : Prop :=
   match r with SNeg | SErr => True | _ => False end.
 
-Lemma disconnect_spec c c' o :
-  disconnect c = (c', o) ->
-  c' = dead c /\ accepted o = [] /\ delivered o = [] /\ miss o = false /\
-  disc_calls o = match st c with Connected => 1%nat | Disconnected => 0%nat end.
+Ltac pair_eq H c o :=
+  let H1 := fresh in let H2 := fresh in
+  apply (f_equal fst) in H as H1; apply (f_equal snd) in H as H2;
+  cbn [fst snd] in H1, H2; subst c o.
+
+(* onDisconnected runs unless the connection already was DISCONNECTED *)
+Definition dcalls (c : conn) : nat :=
+  match st c with Disconnected => 0%nat | _ => 1%nat end.
+
+Lemma disconnect_spec now c c' o :
+  disconnect now c = (c', o) ->
+  c' = fst (disconnect now c) /\ accepted o = [] /\ delivered o = [] /\ miss o = false /\
+  disc_calls o = dcalls c /\ conn_calls o = 0%nat /\
+  rbuf c' = [] /\ wbuf c' = [] /\ st c' <> Connected /\
+  reconnect c' = reconnect c /\ (reconnect c = false -> st c' = Disconnected).
 Proof.
-  unfold disconnect. intros H. apply (f_equal fst) in H as H1. apply (f_equal snd) in H as H2.
-  cbn [fst snd] in H1, H2. subst c' o. repeat split.
+  intros H. rewrite H. cbn [fst]. unfold disconnect, dcalls in *.
+  destruct (st c); destruct (reconnect c) eqn:Er; pair_eq H c' o; cbn;
+    repeat split; try discriminate; try reflexivity; try assumption.
 Qed.
 
 (* while self.__processSend(): pass *)
-Lemma send_loop_spec script : forall c c' o,
-  send_loop script c = (c', o) ->
+Lemma send_loop_spec now script : forall c c' o,
+  send_loop now script c = (c', o) ->
   exists rest,
-    accepted o ++ rest = wbuf c /\ delivered o = [] /\ miss o = false /\
+    accepted o ++ rest = wbuf c /\ delivered o = [] /\ miss o = false /\ conn_calls o = 0%nat /\
     ((c' = set_wbuf c rest /\ disc_calls o = 0%nat) \/
-     (~ Forall benign script /\ c' = dead c /\
-      disc_calls o = match st c with Connected => 1%nat | Disconnected => 0%nat end)).
+     (~ Forall benign script /\ c' = fst (disconnect now c) /\ disc_calls o = dcalls c)).
 Proof.
   induction script as [|r script IH]; intros c c' o H; cbn [send_loop] in H.
   - exists (wbuf c).
     assert (H' : (c, no_out) = (c', o)) by (destruct (wbuf c); exact H).
-    apply (f_equal fst) in H' as H1. apply (f_equal snd) in H' as H2.
-    cbn [fst snd] in H1, H2. subst c' o. cbn. repeat split.
+    pair_eq H' c' o. cbn. repeat split.
     left. rewrite set_wbuf_same. split; reflexivity.
   - destruct (wbuf c) as [|x w] eqn:Ew.
-    + exists []. apply (f_equal fst) in H as H1. apply (f_equal snd) in H as H2.
-      cbn [fst snd] in H1, H2. subst c' o. cbn. repeat split.
+    + exists []. pair_eq H c' o. cbn. repeat split.
       left. rewrite <- Ew, set_wbuf_same. split; reflexivity.
     + destruct r as [k| | | |].
       * (* SAccept k *)
         remember (Nat.max 1 (N.to_nat (N.min k (N.of_nat (length (x :: w)))))) as k' eqn:Ek.
-        destruct (send_loop script (set_wbuf c (skipn k' (x :: w)))) as [c2 o2] eqn:E2.
-        apply IH in E2 as (rest & A & B & C & D). cbn [wbuf set_wbuf] in A.
-        apply (f_equal fst) in H as H1. apply (f_equal snd) in H as H2.
-        cbn [fst snd] in H1, H2. subst c' o.
-        exists rest. cbn [out_app accepted delivered miss disc_calls].
-        rewrite <- app_assoc, A, firstn_skipn, B, C. repeat split.
+        destruct (send_loop now script (set_wbuf c (skipn k' (x :: w)))) as [c2 o2] eqn:E2.
+        apply IH in E2 as (rest & A & B & C & C' & D). cbn [wbuf set_wbuf] in A.
+        pair_eq H c' o.
+        exists rest. cbn [out_app accepted delivered miss disc_calls conn_calls].
+        rewrite <- app_assoc, A, firstn_skipn, B, C, C'. repeat split.
         destruct D as [[D1 D2]|[D1 [D2 D3]]].
         -- left. subst c2. rewrite D2. split; reflexivity.
         -- right. subst c2. rewrite D3. repeat split.
            intros F. apply D1. inversion F; assumption.
       * (* SZero *)
-        exists (x :: w). apply (f_equal fst) in H as H1. apply (f_equal snd) in H as H2.
-        cbn [fst snd] in H1, H2. subst c' o. cbn. repeat split.
+        exists (x :: w). pair_eq H c' o. cbn. repeat split.
         left. rewrite <- Ew, set_wbuf_same. split; reflexivity.
       * (* SNeg *)
-        apply disconnect_spec in H as (H1 & H2 & H3 & H4 & H5).
+        apply disconnect_spec in H as (H1 & H2 & H3 & H4 & H5 & H6 & _).
         exists (x :: w). rewrite H2. repeat split; try assumption.
         right. repeat split; try assumption.
         intros F. inversion F as [|? ? Fb ?]. exact Fb.
       * (* SEagain *)
-        exists (x :: w). apply (f_equal fst) in H as H1. apply (f_equal snd) in H as H2.
-        cbn [fst snd] in H1, H2. subst c' o. cbn. repeat split.
+        exists (x :: w). pair_eq H c' o. cbn. repeat split.
         left. rewrite <- Ew, set_wbuf_same. split; reflexivity.
       * (* SErr *)
-        apply disconnect_spec in H as (H1 & H2 & H3 & H4 & H5).
+        apply disconnect_spec in H as (H1 & H2 & H3 & H4 & H5 & H6 & _).
         exists (x :: w). rewrite H2. repeat split; try assumption.
         right. repeat split; try assumption.
         intros F. inversion F as [|? ? Fb ?]. exact Fb.
@@ -86,29 +92,55 @@ Qed.
 Lemma try_send_spec now script c c' o :
   try_send now script c = (c', o) ->
   exists rest,
-    accepted o ++ rest = wbuf c /\ delivered o = [] /\ miss o = false /\
-    (st c' = Connected -> wbuf c' = rest) /\
+    accepted o ++ rest = wbuf c /\ delivered o = [] /\ miss o = false /\ conn_calls o = 0%nat /\
+    reconnect c' = reconnect c /\
+    (reconnect c = false -> st c' <> Disconnected -> wbuf c' = rest /\ st c' = st c) /\
     (st c = Disconnected -> st c' = Disconnected /\ accepted o = [] /\ disc_calls o = 0%nat) /\
-    (st c = Connected -> now - last_read c <= timeout c -> Forall benign script ->
+    (st c <> Disconnected -> now - last_read c <= timeout c -> Forall benign script ->
      c' = set_wbuf c rest /\ disc_calls o = 0%nat).
 Proof.
   unfold try_send, check_timeout. intros H.
   destruct (now - last_read c >? timeout c) eqn:E.
-  - cbn [disconnect st] in H.
-    apply (f_equal fst) in H as H1. apply (f_equal snd) in H as H2.
-    cbn [fst snd] in H1, H2. subst c' o.
-    exists (wbuf c). cbn. repeat split; try discriminate; try lia.
-    match goal with Hs : st c = Disconnected |- _ => rewrite Hs; reflexivity end.
+  - destruct (disconnect now c) as [c1 o1] eqn:E1.
+    apply disconnect_spec in E1 as (_ & A1 & A2 & A3 & A4 & A5 & B1 & B2 & B3 & B4 & B5).
+    assert (H' : (c1, o1) = (c', o)).
+    { destruct (st c1) eqn:Es1; [exact H| |congruence].
+      rewrite (send_loop_empty now script c1 B2) in H. rewrite out_app_no_out_r in H. exact H. }
+    pair_eq H' c' o.
+    exists (wbuf c). rewrite A1. repeat split; try assumption; try lia.
+    + intros Hr Hn. exfalso. apply Hn. exact (B5 Hr).
+    + intros Hr Hn. exfalso. apply Hn. exact (B5 Hr).
+    + unfold disconnect in *. intros Hs.
+      destruct (reconnect c); [|exact (B5 eq_refl)].
+      (* already DISCONNECTED: no callback, so no reconnect *)
+      unfold dcalls in A4. rewrite Hs in A4.
+      clear - Hs E H. exfalso. revert H. unfold disconnect. rewrite Hs. cbn. congruence.
+    + intros Hs. unfold dcalls in A4. rewrite Hs in A4. exact A4.
   - destruct (st c) eqn:Es.
-    + apply (f_equal fst) in H as H1. apply (f_equal snd) in H as H2.
-      cbn [fst snd] in H1, H2. subst c' o.
+    + pair_eq H c' o.
       exists (wbuf c). cbn. repeat split; try congruence.
-    + destruct (send_loop script c) as [c2 o2] eqn:E2.
-      apply send_loop_spec in E2 as (rest & A & B & C & D).
-      apply (f_equal fst) in H as H1. apply (f_equal snd) in H as H2.
-      cbn [fst snd] in H1, H2. subst c' o. rewrite out_app_no_out_l.
+    + destruct (send_loop now script c) as [c2 o2] eqn:E2.
+      apply send_loop_spec in E2 as (rest & A & B & C & C' & D).
+      pair_eq H c' o. rewrite out_app_no_out_l.
       exists rest. repeat split; try assumption; try discriminate.
-      * intros Hc. destruct D as [[D1 _]|[_ [D1 _]]]; subst c2; [reflexivity|discriminate].
+      * destruct D as [[D1 _]|[_ [D1 _]]]; subst c2; [reflexivity|].
+        unfold disconnect. rewrite Es. destruct (reconnect c); reflexivity.
+      * destruct D as [[D1 _]|[_ [D1 _]]]; subst c2; [reflexivity|].
+        exfalso. revert H0. unfold disconnect. rewrite Es, H. cbn. congruence.
+      * destruct D as [[D1 _]|[_ [D1 _]]]; subst c2; [cbn; congruence|].
+        exfalso. revert H0. unfold disconnect. rewrite Es, H. cbn. congruence.
+      * destruct D as [[D1 _]|[D1 _]]; [exact D1|contradiction].
+      * destruct D as [[_ D2]|[D1 _]]; [exact D2|contradiction].
+    + destruct (send_loop now script c) as [c2 o2] eqn:E2.
+      apply send_loop_spec in E2 as (rest & A & B & C & C' & D).
+      pair_eq H c' o. rewrite out_app_no_out_l.
+      exists rest. repeat split; try assumption; try discriminate.
+      * destruct D as [[D1 _]|[_ [D1 _]]]; subst c2; [reflexivity|].
+        unfold disconnect. rewrite Es. destruct (reconnect c); reflexivity.
+      * destruct D as [[D1 _]|[_ [D1 _]]]; subst c2; [reflexivity|].
+        exfalso. revert H0. unfold disconnect. rewrite Es, H. cbn. congruence.
+      * destruct D as [[D1 _]|[_ [D1 _]]]; subst c2; [cbn; congruence|].
+        exfalso. revert H0. unfold disconnect. rewrite Es, H. cbn. congruence.
       * destruct D as [[D1 _]|[D1 _]]; [exact D1|contradiction].
       * destruct D as [[_ D2]|[D1 _]]; [exact D2|contradiction].
 Qed.
@@ -119,12 +151,12 @@ Section C13W.
   (* ---------------------------------------------------------------- *)
   (* the read side never touches the write buffer                      *)
 
-  Lemma parse_one_cases c c' r :
-    parse_one dec c = (c', r) ->
+  Lemma parse_one_cases now c c' r :
+    parse_one dec now c = (c', r) ->
     match r with
     | PNone | PMiss => c' = c
     | PMsg _ => exists b, c' = set_rbuf c b
-    | PDisc => c' = dead c
+    | PDisc => c' = dead now c
     end.
   Proof.
     unfold parse_one; cbv zeta. intros H.
@@ -143,19 +175,19 @@ Section C13W.
     eexists; reflexivity.
   Qed.
 
-  Lemma parse_loop_wbuf fuel : forall c c' o,
-    parse_loop dec fuel c = (c', o) ->
+  Lemma parse_loop_wbuf now fuel : forall c c' o,
+    parse_loop dec now fuel c = (c', o) ->
     accepted o = [] /\ (st c' = Connected -> wbuf c' = wbuf c).
   Proof.
     induction fuel as [|f IH]; intros c c' o H; cbn [parse_loop] in H.
     - apply (f_equal fst) in H as H1. apply (f_equal snd) in H as H2.
       cbn [fst snd] in H1, H2. subst c' o. split; reflexivity.
-    - destruct (parse_one dec c) as [c1 r] eqn:E1. apply parse_one_cases in E1.
+    - destruct (parse_one dec now c) as [c1 r] eqn:E1. apply parse_one_cases in E1.
       destruct r as [|id| |].
       + apply (f_equal fst) in H as H1. apply (f_equal snd) in H as H2.
         cbn [fst snd] in H1, H2. subst c' o c1. split; reflexivity.
       + destruct E1 as [b ->].
-        destruct (parse_loop dec f (set_rbuf c b)) as [c2 o2] eqn:E2.
+        destruct (parse_loop dec now f (set_rbuf c b)) as [c2 o2] eqn:E2.
         apply IH in E2 as [A B].
         apply (f_equal fst) in H as H1. apply (f_equal snd) in H as H2.
         cbn [fst snd] in H1, H2. subst c' o. cbn [out_app accepted].
@@ -166,8 +198,8 @@ Section C13W.
         cbn [fst snd] in H1, H2. subst c' o c1. split; reflexivity.
   Qed.
 
-  Lemma read_loop_wbuf rs : forall c c' o,
-    read_loop rs c = (c', o) ->
+  Lemma read_loop_wbuf now rs : forall c c' o,
+    read_loop now rs c = (c', o) ->
     accepted o = [] /\ (st c' = Connected -> wbuf c' = wbuf c).
   Proof.
     induction rs as [|r rs IH]; intros c c' o H; cbn [read_loop] in H.
@@ -234,7 +266,7 @@ Section C13W.
       exists (wbuf c). cbn. repeat split; discriminate. }
     rewrite Es in H.
     destruct ((rd || wr) && soerr).
-    { destruct (disconnect c) as [c2 o2] eqn:E2.
+    { destruct (disconnect now c) as [c2 o2] eqn:E2.
       apply disconnect_spec in E2 as (-> & A2 & _). pair_eq H c1 o.
       exists (wbuf c). cbn [out_app accepted no_out]. rewrite A2.
       repeat split; discriminate. }
@@ -248,12 +280,12 @@ Section C13W.
     { pair_eq H c1 o. rewrite out_app_no_out_l. repeat split; [exact A|congruence|discriminate]. }
     destruct rd.
     2:{ pair_eq H c1 o. rewrite out_app_no_out_l. repeat split; [exact A|intros _; exact (B eq_refl)|discriminate]. }
-    destruct (read_loop rs c2) as [c3 o3] eqn:E3. apply read_loop_wbuf in E3 as [A3 B3].
+    destruct (read_loop now rs c2) as [c3 o3] eqn:E3. apply read_loop_wbuf in E3 as [A3 B3].
     cbn [st set_last_read] in H.
     destruct (st c3) eqn:Es3.
     { pair_eq H c1 o. rewrite out_app_no_out_l. cbn [out_app accepted st set_last_read].
       rewrite A3, app_nil_r. repeat split; [exact A|congruence|discriminate]. }
-    destruct (parse_all dec (set_last_read c3 now)) as [c4 o4] eqn:E4.
+    destruct (parse_all dec now (set_last_read c3 now)) as [c4 o4] eqn:E4.
     unfold parse_all in E4. apply parse_loop_wbuf in E4 as [A4 B4].
     cbn [wbuf set_last_read] in B4. pair_eq H c1 o.
     rewrite out_app_no_out_l. cbn [out_app accepted]. rewrite A3, A4, !app_nil_r.
@@ -416,17 +448,17 @@ Section C13W.
     cbn [Nat.add skipn]. apply IH.
   Qed.
 
-  Lemma send_loop_accepts ks : forall c tl,
+  Lemma send_loop_accepts now ks : forall c tl,
     (total ks < length (wbuf c))%nat ->
-    send_loop (map SAccept ks ++ tl) c =
-      (let (c', o) := send_loop tl (set_wbuf c (skipn (total ks) (wbuf c))) in
+    send_loop now (map SAccept ks ++ tl) c =
+      (let (c', o) := send_loop now tl (set_wbuf c (skipn (total ks) (wbuf c))) in
        (c', out_app {| accepted := firstn (total ks) (wbuf c); delivered := [];
-                       disc_calls := 0; miss := false |} o)).
+                       disc_calls := 0; conn_calls := 0; miss := false |} o)).
   Proof.
     induction ks as [|k ks IH]; intros c tl Hlen.
     - cbn [map app total fold_right skipn firstn]. rewrite set_wbuf_same.
-      destruct (send_loop tl c) as [c' o].
-      change {| accepted := []; delivered := []; disc_calls := 0; miss := false |} with no_out.
+      destruct (send_loop now tl c) as [c' o].
+      change {| accepted := []; delivered := []; disc_calls := 0; conn_calls := 0; miss := false |} with no_out.
       rewrite out_app_no_out_l. reflexivity.
     - cbn [map app send_loop]. cbn [total fold_right] in Hlen. fold (total ks) in Hlen.
       destruct (wbuf c) as [|x w] eqn:Ew; [cbn in Hlen; lia|].
@@ -441,16 +473,16 @@ Section C13W.
         with (set_wbuf c (skipn (total ks) (skipn (amt k) (x :: w)))).
       rewrite skipn_add.
       cbn [total fold_right]. fold (total ks).
-      destruct (send_loop tl (set_wbuf c (skipn (amt k + total ks) (x :: w)))) as [c' o].
+      destruct (send_loop now tl (set_wbuf c (skipn (amt k + total ks) (x :: w)))) as [c' o].
       unfold out_app. cbn [accepted delivered disc_calls miss].
       rewrite (firstn_add (amt k) (total ks) (x :: w)), <- app_assoc. reflexivity.
   Qed.
 
-  Definition disc_out (acc : bytes) : outs :=
-    {| accepted := acc; delivered := []; disc_calls := 1; miss := false |}.
+  Definition disc_out_acc (acc : bytes) : outs :=
+    {| accepted := acc; delivered := []; disc_calls := 1; conn_calls := 0; miss := false |}.
 
   Lemma send_loop_fails f post c :
-    fails f -> wbuf c <> [] -> send_loop (f :: post) c = disconnect c.
+    fails f -> wbuf c <> [] -> send_loop now (f :: post) c = disconnect now c.
   Proof.
     intros Hf Hne. cbn [send_loop].
     destruct (wbuf c) as [|x w]; [congruence|].
@@ -461,7 +493,7 @@ Section C13W.
     st c = Connected -> now - last_read c <= timeout c -> fails f ->
     (total ks < length (wbuf c))%nat ->
     try_send now (map SAccept ks ++ f :: post) c
-    = (dead c, disc_out (firstn (total ks) (wbuf c))).
+    = (dead now c, disc_out_acc (firstn (total ks) (wbuf c))).
   Proof.
     intros Hst Ht Hf Hlen. unfold try_send.
     rewrite (check_timeout_ok now c Ht), Hst.
@@ -471,13 +503,13 @@ Section C13W.
       rewrite skipn_length in Es. cbn in Es. lia. }
     rewrite (send_loop_fails f post _ Hf Hne).
     unfold disconnect. cbn [st set_wbuf last_read timeout]. rewrite Hst.
-    rewrite out_app_no_out_l. unfold out_app, disc_out, dead.
+    rewrite out_app_no_out_l. unfold out_app, disc_out_acc, dead.
     cbn [accepted delivered disc_calls miss]. rewrite app_nil_r. reflexivity.
   Qed.
 
   Lemma try_send_timeout now script c :
     st c = Connected -> now - last_read c > timeout c ->
-    try_send now script c = (dead c, disc_out []).
+    try_send now script c = (dead now c, disc_out_acc []).
   Proof.
     intros Hst Ht. unfold try_send, check_timeout.
     destruct (now - last_read c >? timeout c) eqn:E; [|lia].
@@ -491,7 +523,7 @@ Section C13W.
     st c = Connected -> now - last_read c <= timeout c -> fails f ->
     (total ks < length (wbuf c ++ frame p))%nat ->
     step dec c (ESend now p (map SAccept ks ++ f :: post))
-    = (dead c, disc_out (firstn (total ks) (wbuf c ++ frame p))).
+    = (dead now c, disc_out_acc (firstn (total ks) (wbuf c ++ frame p))).
   Proof.
     intros Hst Ht Hf Hlen. unfold step.
     rewrite (try_send_failure now ks f post (set_wbuf c (wbuf c ++ frame p)) Hst Ht Hf Hlen).
@@ -502,7 +534,7 @@ Section C13W.
     st c = Connected -> now - last_read c <= timeout c -> fails f ->
     (total ks < length (wbuf c))%nat -> soerr = false ->
     step dec c (EPoll now rd true false soerr (map SAccept ks ++ f :: post) rs)
-    = (dead c, disc_out (firstn (total ks) (wbuf c))).
+    = (dead now c, disc_out_acc (firstn (total ks) (wbuf c))).
   Proof.
     intros Hst Ht Hf Hlen ->. unfold step. rewrite Hst.
     rewrite (check_timeout_ok now c Ht). cbv beta iota. rewrite Hst, andb_false_r.
@@ -512,7 +544,7 @@ Section C13W.
 
   Theorem writer_timeout_send c now p script :
     st c = Connected -> now - last_read c > timeout c ->
-    step dec c (ESend now p script) = (dead c, disc_out []).
+    step dec c (ESend now p script) = (dead now c, disc_out_acc []).
   Proof.
     intros Hst Ht. unfold step.
     rewrite (try_send_timeout now script (set_wbuf c (wbuf c ++ frame p)) Hst Ht).
@@ -521,7 +553,7 @@ Section C13W.
 
   Theorem writer_timeout_poll c now rd wr soerr ss rs :
     st c = Connected -> now - last_read c > timeout c ->
-    step dec c (EPoll now rd wr false soerr ss rs) = (dead c, disc_out []).
+    step dec c (EPoll now rd wr false soerr ss rs) = (dead now c, disc_out_acc []).
   Proof.
     intros Hst Ht. unfold step, check_timeout. rewrite Hst.
     destruct (now - last_read c >? timeout c) eqn:E; [|lia].
@@ -557,8 +589,8 @@ Section C13RT.
        (k <= length ms)%nat /\
        acc_of os = stream payload (firstn k ms) ++ tail /\
        next_frame_prefix payload tail (skipn k ms) /\
-       feed_all dec cr cs = (set_rbuf cr tail, mk_out (firstn k ms))) /\
-    (st cw' = Connected -> wbuf cw' = [] -> feed_all dec cr cs = (cr, mk_out ms)).
+       feed_all dec now cr cs = (set_rbuf cr tail, mk_out (firstn k ms))) /\
+    (st cw' = Connected -> wbuf cw' = [] -> feed_all dec now cr cs = (cr, mk_out ms)).
   Proof.
     intros Hw Hp Hg Hrun Hcs Hr.
     destruct (writer_any decw es cw cw' os Hrun) as (rest & A & B).
@@ -660,7 +692,7 @@ Qed.
 (* message 1, then a frame with length field -1, then garbage *)
 Example ex_bad_negative :
   parse_all ex_dec (set_rbuf ex_c0 ([3; 0; 0; 0; 10; 11; 12] ++ [255; 255; 255; 255] ++ [9; 9])%N)
-  = (dead ex_c0, {| accepted := []; delivered := [1%N]; disc_calls := 1; miss := false |}).
+  = (dead ex_c0, {| accepted := []; delivered := [1%N]; disc_calls := 1; conn_calls := 0; miss := false |}).
 Proof.
   apply (bad_frame_disconnects ex_dec ex_payload
            (set_rbuf ex_c0 ([3; 0; 0; 0; 10; 11; 12] ++ [255; 255; 255; 255] ++ [9; 9])%N)
@@ -672,7 +704,7 @@ Qed.
 (* message 1, then an undecodable frame, then message 2, which is never delivered *)
 Example ex_bad_undecodable :
   parse_all ex_dec (set_rbuf ex_c0 (stream ex_payload [1%N] ++ frame [66%N] ++ stream ex_payload [2%N]))
-  = (dead ex_c0, {| accepted := []; delivered := [1%N]; disc_calls := 1; miss := false |}).
+  = (dead ex_c0, {| accepted := []; delivered := [1%N]; disc_calls := 1; conn_calls := 0; miss := false |}).
 Proof.
   apply (bad_frame_disconnects ex_dec ex_payload
            (set_rbuf ex_c0 (stream ex_payload [1%N] ++ frame [66%N] ++ stream ex_payload [2%N]))
@@ -685,8 +717,8 @@ Example ex_bad_frame_step :
   step ex_dec (set_rbuf ex_c0 [3; 0]%N)
        (EPoll 4 true false false false []
           (chunks_script [[0; 0; 10; 11]; [12; 1; 0; 0; 0; 66; 2; 0]]%N ++ []))
-  = (dead (set_last_read (set_rbuf ex_c0 [3; 0]%N) 4),
-     {| accepted := []; delivered := [1%N]; disc_calls := 1; miss := false |}).
+  = (dead now (set_last_read (set_rbuf ex_c0 [3; 0]%N) 4),
+     {| accepted := []; delivered := [1%N]; disc_calls := 1; conn_calls := 0; miss := false |}).
 Proof.
   apply (bad_frame_step ex_dec ex_payload (set_rbuf ex_c0 [3; 0]%N) 4 [1%N] (frame [66%N]) [2; 0]%N).
   - ex_good.
@@ -723,9 +755,9 @@ Qed.
 Example ex_writer_computed :
   run ex_dec ex_c0 ex_wevents
   = (ex_c0,
-     [{| accepted := [3; 0]%N; delivered := []; disc_calls := 0; miss := false |};
+     [{| accepted := [3; 0]%N; delivered := []; disc_calls := 0; conn_calls := 0; miss := false |};
       no_out;
-      {| accepted := [0; 0; 10; 11; 12; 2; 0; 0; 0; 20; 21]%N; delivered := []; disc_calls := 0; miss := false |}]).
+      {| accepted := [0; 0; 10; 11; 12; 2; 0; 0; 0; 20; 21]%N; delivered := []; disc_calls := 0; conn_calls := 0; miss := false |}]).
 Proof. vm_compute. reflexivity. Qed.
 
 (* any schedule: the second send hits a socket error after 3 more bytes *)
@@ -747,7 +779,7 @@ Proof. vm_compute. split; reflexivity. Qed.
 
 Example ex_writer_failure_send :
   step ex_dec (set_wbuf ex_c0 [0; 0; 10; 11; 12]%N) (ESend 2 (ex_payload 2) (map SAccept [3; 0]%N ++ SErr :: [SAccept 9]))
-  = (dead ex_c0, disc_out [0; 0; 10; 11]%N).
+  = (dead ex_c0, disc_out_acc [0; 0; 10; 11]%N).
 Proof.
   apply (writer_failure_send ex_dec (set_wbuf ex_c0 [0; 0; 10; 11; 12]%N) 2 (ex_payload 2) [3; 0]%N SErr [SAccept 9]).
   - reflexivity.
@@ -759,7 +791,7 @@ Qed.
 Example ex_writer_failure_poll :
   step ex_dec (set_wbuf ex_c0 [0; 0; 10; 11; 12]%N)
        (EPoll 2 true true false false (map SAccept [2]%N ++ SNeg :: []) [RChunk [1]%N false])
-  = (dead ex_c0, disc_out [0; 0]%N).
+  = (dead ex_c0, disc_out_acc [0; 0]%N).
 Proof.
   apply (writer_failure_poll ex_dec (set_wbuf ex_c0 [0; 0; 10; 11; 12]%N) 2 true false [2]%N SNeg []).
   - reflexivity.
@@ -771,12 +803,12 @@ Qed.
 
 Example ex_writer_timeout_send :
   step ex_dec (set_wbuf ex_c0 [0; 0; 10]%N) (ESend 11 (ex_payload 2) [SAccept 9])
-  = (dead ex_c0, disc_out []).
+  = (dead ex_c0, disc_out_acc []).
 Proof. apply (writer_timeout_send ex_dec (set_wbuf ex_c0 [0; 0; 10]%N)); [reflexivity|ex_arith]. Qed.
 
 Example ex_writer_timeout_poll :
   step ex_dec (set_wbuf ex_c0 [0; 0; 10]%N) (EPoll 11 true true false false [SAccept 9] [RChunk [1]%N false])
-  = (dead ex_c0, disc_out []).
+  = (dead ex_c0, disc_out_acc []).
 Proof. apply (writer_timeout_poll ex_dec (set_wbuf ex_c0 [0; 0; 10]%N)); [reflexivity|ex_arith]. Qed.
 
 (* roundtrip: the writer of ex_wevents_fail got 5 bytes out before the error;
@@ -824,8 +856,8 @@ Section C13Final.
     (forall m, In m ms -> dec (payload m) = DOk m /\ zlen (payload m) < two31) ->
     rbuf c = [] ->
     concat cs = concat (map (fun m => frame (payload m)) ms) ->
-    feed_all dec c cs =
-      (c, {| accepted := []; delivered := ms; disc_calls := 0; miss := false |}).
+    feed_all dec now c cs =
+      (c, {| accepted := []; delivered := ms; disc_calls := 0; conn_calls := 0; miss := false |}).
   Proof. intros H. exact (reader_complete dec payload ms cs c (goods_Forall ms H)). Qed.
 
   Lemma C13_reader_prefix_thm ms cs rest c :
@@ -839,9 +871,9 @@ Section C13Final.
       | [] => tail = []
       | m :: _ => exists s, s <> [] /\ tail ++ s = frame (payload m)
       end /\
-      feed_all dec c cs =
+      feed_all dec now c cs =
         (set_rbuf c tail,
-         {| accepted := []; delivered := firstn k ms; disc_calls := 0; miss := false |}).
+         {| accepted := []; delivered := firstn k ms; disc_calls := 0; conn_calls := 0; miss := false |}).
   Proof. intros H. exact (reader_prefix dec payload ms cs rest c (goods_Forall ms H)). Qed.
 
   Lemma C13_reader_prefix_unique_thm ms cs k tail c :
@@ -852,9 +884,9 @@ Section C13Final.
     | [] => tail = []
     | m :: _ => exists s, s <> [] /\ tail ++ s = frame (payload m)
     end ->
-    feed_all dec c cs =
+    feed_all dec now c cs =
       (set_rbuf c tail,
-       {| accepted := []; delivered := firstn k ms; disc_calls := 0; miss := false |}).
+       {| accepted := []; delivered := firstn k ms; disc_calls := 0; conn_calls := 0; miss := false |}).
   Proof. intros H. exact (reader_prefix_any dec payload ms cs k tail c (goods_Forall ms H)). Qed.
 
   Lemma C13_reader_on_run_thm ms (ps : list (Z * bytes)) c :
@@ -867,7 +899,7 @@ Section C13Final.
         = (c', os) /\
       st c' = Connected /\ rbuf c' = [] /\ wbuf c' = wbuf c /\
       fold_right out_app no_out os =
-        {| accepted := []; delivered := ms; disc_calls := 0; miss := false |}.
+        {| accepted := []; delivered := ms; disc_calls := 0; conn_calls := 0; miss := false |}.
   Proof. intros H. exact (reader_run_complete dec payload ms ps c (goods_Forall ms H)). Qed.
 
   Lemma C13_bad_frame_disconnects_thm c ms bad rest :
@@ -876,9 +908,9 @@ Section C13Final.
     ((4 <= length bad)%nat /\ unpack_i bad < 0) \/
     (exists d, bad = pack_i (zlen d) ++ d /\ zlen d < two31 /\ dec d = DFail) ->
     rbuf c = concat (map (fun m => frame (payload m)) ms) ++ bad ++ rest ->
-    parse_all dec c =
+    parse_all dec now c =
       ({| st := Disconnected; rbuf := []; wbuf := []; last_read := last_read c; timeout := timeout c |},
-       {| accepted := []; delivered := ms; disc_calls := 1; miss := false |}).
+       {| accepted := []; delivered := ms; disc_calls := 1; conn_calls := 0; miss := false |}).
   Proof. intros H. exact (bad_frame_disconnects dec payload c ms bad rest (goods_Forall ms H)). Qed.
 
   Lemma C13_bad_frame_disconnects_step_thm c now ms bad rest bs tl :
@@ -891,7 +923,7 @@ Section C13Final.
     rbuf c ++ concat bs = concat (map (fun m => frame (payload m)) ms) ++ bad ++ rest ->
     step dec c (EPoll now true false false false [] (map (fun b => RChunk b false) bs ++ tl)) =
       ({| st := Disconnected; rbuf := []; wbuf := []; last_read := now; timeout := timeout c |},
-       {| accepted := []; delivered := ms; disc_calls := 1; miss := false |}).
+       {| accepted := []; delivered := ms; disc_calls := 1; conn_calls := 0; miss := false |}).
   Proof. intros H. exact (bad_frame_step dec payload c now ms bad rest bs tl (goods_Forall ms H)). Qed.
 
   Variable decw : bytes -> dres.
@@ -909,12 +941,12 @@ Section C13Final.
        | [] => tail = []
        | m :: _ => exists s, s <> [] /\ tail ++ s = frame (payload m)
        end /\
-       feed_all dec cr cs =
+       feed_all dec now cr cs =
          (set_rbuf cr tail,
-          {| accepted := []; delivered := firstn k ms; disc_calls := 0; miss := false |})) /\
+          {| accepted := []; delivered := firstn k ms; disc_calls := 0; conn_calls := 0; miss := false |})) /\
     (st cw' = Connected -> wbuf cw' = [] ->
-     feed_all dec cr cs =
-       (cr, {| accepted := []; delivered := ms; disc_calls := 0; miss := false |})).
+     feed_all dec now cr cs =
+       (cr, {| accepted := []; delivered := ms; disc_calls := 0; conn_calls := 0; miss := false |})).
   Proof.
     intros Hw Hp H.
     exact (roundtrip dec decw payload es ms cw cw' os cs cr Hw Hp (goods_Forall ms H)).
